@@ -2,8 +2,9 @@
 
 proof: lean/CashewsVerif/Props/C12.lean (invariant "a live key whose latest write carried t is a member of the
        live set _tag:t whose deadline is not earlier than the key's", completeness and precision of delete_tags).
-tie:   generated histories of tagged / untagged set, incr, decorated calls, delete, delete_many, delete_match, time
-       advance and delete_tags run on the real `Cache` facade (mem://, tag sets in the same or in a separate
+tie:   generated histories of tagged / untagged set, incr, decorated calls (also of functions that mutate their list /
+       dict arguments in place), delete, delete_many, delete_match (glob patterns, wildcard-free patterns naming one
+       key, patterns matching nothing), time advance and delete_tags run on the real `Cache` facade (mem://, tag sets in the same or in a separate
        backend, purge task on/off) under the virtual clock and on the model driver; compared line by line
        (impl == model), and the property statement itself is evaluated on the implementation's observations from
        the harness's own log of "latest write carried tag" (spec oracle).
@@ -20,7 +21,7 @@ from ..core import ROOT, Check, Driver, HarnessError, ddmin, proof_stage
 PROP = "C12"
 DRIVER = Driver("driver_c12", "Drivers/C12.lean")
 CFGS = ["shared", "separate", "shared_secret", "shared_purge", "separate_purge"]
-LAYOUTS = ["plain", "templ", "decor"]
+LAYOUTS = ["plain", "templ", "decor", "mut"]
 BIGS = [100, 101, 150, 200, 201, 230]
 
 TRUSTED = [
@@ -29,7 +30,7 @@ TRUSTED = [
     "the model works on the TTL map (C01) and has no capacity: the property's hypothesis 'store within capacity' is built in (runs use size=100000)",
     "tag registry abstracted in the main theorems as the function key -> tags; its template/regex layer (cashews/formatter.py template_to_re_pattern, TagsRegistry.get_key_tags) is modelled relationally in Model/TagTemplates.lean (theorems registry_recovers_fields, registry_tag_is_writers_tag) and compared with the harness's own field substitution on every universe key of every case and on a sweep of random well-separated templates; that Python's re returns *a* match of the modelled relation is trusted",
     "harness: virtual clock (harness/vtime.py), canonicalisation, purge-sweep splicing, raw peeks into Memory.store used only by the oracle and the statistics (harness/taghist.py)",
-    "decorator calls: the body is a harness function returning a fresh token; thunder protection is on (default) but calls are sequential",
+    "decorator calls: the body is a harness function returning a fresh token (and, in the layout mut, applying a scripted in-place mutation to its list / dict argument); the tags expected of the entry are rendered by the harness from a private copy of the arguments before the call (harness/taghist.py render / fmt: lists joined by ':', dicts as sorted key:value pairs); thunder protection is on (default) but calls are sequential",
 ]
 
 _layouts: dict[str, taghist.Layout] = {}
@@ -105,6 +106,32 @@ def exhaustive_cases(maxlen: int):
     incr, delete, time beyond the short TTL), each followed by delete_tags and a probe of both keys"""
     alphabet = ["set 0 t:1 - a 0", "set 0 t:1 8 a 0", "set 0 t:1 800 a 0", "set 1 t:2 - a 0", "set 1 t:2 8 a 0", "set 1 t:2 800 a 0",
                 "incr 0 1 8 0", "incr 1 1 800 0", "set 0 i:3 - a -", "delete 1", "adv 16", "deltags 0"]
+    tail = ["deltags 0", "get 0", "get 1"]
+    out = []
+
+    def rec(prefix, depth):
+        if prefix:
+            out.append(list(prefix) + tail)
+        if depth == 0:
+            return
+        for a in alphabet:
+            prefix.append(a)
+            rec(prefix, depth - 1)
+            prefix.pop()
+
+    rec([], maxlen)
+    return out, len(alphabet)
+
+
+def exhaustive_removal_cases(maxlen: int):
+    """second enumerated sub-space, on the removal paths: every history of 1..maxlen commands over tagged / untagged
+    writes of two keys and every way of explicitly removing them - delete, delete_many, delete_match with a
+    wildcard-free pattern (exact key), with a glob matching both keys, with patterns matching nothing - each followed
+    by delete_tags and a probe of both keys"""
+    lay = layout("plain")
+    alphabet = ["set 0 t:1 - a 0", "set 0 t:1 8 a 0", "set 0 t:2 - a -", "set 1 t:1 - a 0+1", "delete 0", "delmany 1 0",
+                f"delmatch {lay.exact_of[0]}", f"delmatch {lay.exact_of[1]}", "delmatch 0", f"delmatch {lay.nomatch[1]}",
+                "adv 16", "deltags 1"]
     tail = ["deltags 0", "get 0", "get 1"]
     out = []
 
@@ -269,10 +296,22 @@ def run(chk: Check) -> int:
     for i in range(nunreg):
         cases.append((f"unreg:{i}", CFGS[i % 2], "unreg", taghist.gen_history(rng, layout("unreg"), 16, registered_only=False)))
 
+    nrec = chk.budget(900, 12000)
+    for i in range(nrec):
+        lay = LAYOUTS[i % len(LAYOUTS)]
+        cases.append((f"recreate:{i}", CFGS[(i // len(LAYOUTS)) % len(CFGS)], lay, taghist.gen_recreate(rng, layout(lay))))
+    nmut = chk.budget(500, 8000)
+    for i in range(nmut):
+        cases.append((f"mutcall:{i}", CFGS[i % len(CFGS)], "mut", taghist.gen_mutcall(rng, layout("mut"))))
+
     exh_len = chk.budget(3, 4)
     exh, nalpha = exhaustive_cases(exh_len)
     for i, ops in enumerate(exh):
         cases.append((f"exh:{i}", "shared" if i % 2 else "separate", "plain", ops))
+    exh2_len = chk.budget(3, 4)
+    exh2, nalpha2 = exhaustive_removal_cases(exh2_len)
+    for i, ops in enumerate(exh2):
+        cases.append((f"exh2:{i}", "shared" if i % 2 else "separate", "plain", ops))
 
     found = 0
     evaluations = 0
@@ -281,8 +320,10 @@ def run(chk: Check) -> int:
     interesting: dict[str, int] = {}
     by_layout: dict[str, int] = {}
     by_cfg: dict[str, int] = {}
+    by_stream: dict[str, int] = {}
     samples = []
     notes = 0
+    sampled: dict[str, int] = {}
     deltags_checked = 0
     CHUNK = 150
     for c0 in range(0, len(cases), CHUNK):
@@ -290,7 +331,9 @@ def run(chk: Check) -> int:
         results = run_cases([(cfg, lay, ops) for _, cfg, lay, ops in chunk])
         for (origin, cfg, lay, ops), (r, answers) in zip(chunk, results):
             evaluations += 1
-            lname = "exhaustive" if origin.startswith("exh:") else lay.split(":")[0]
+            lname = "exhaustive" if origin.startswith("exh") else lay.split(":")[0]
+            stream = origin.split(":")[0]
+            by_stream[stream] = by_stream.get(stream, 0) + 1
             by_layout[lname] = by_layout.get(lname, 0) + 1
             by_cfg[cfg] = by_cfg.get(cfg, 0) + 1
             for l, _ in r.eff:
@@ -306,8 +349,17 @@ def run(chk: Check) -> int:
             nontrivial = [k for k in r.stats if k not in ("decorator_hit", "unregistered_tag_used(not judged)", "purge_sweeps_spliced")]
             if nontrivial and r.oracle_sets:
                 distinct.add((cfg, lay, tuple(ops)))
-            if len(samples) < 3 and nontrivial and r.oracle_sets and len(ops) <= 12 and origin.startswith("gen:"):
-                samples.append({"config": cfg, "layout": lay, "ops": ops, "impl": [o for _, o in r.eff], "states": sorted(r.stats)})
+            if nontrivial and r.oracle_sets and len(ops) <= 14:
+                want = None
+                if origin.startswith("gen:") and sampled.get("gen", 0) < 3:
+                    want = "gen"
+                elif origin.startswith("recreate:") and "deltags_spares_key_recreated_after_delete_match_exact" in r.stats and not sampled.get("rec"):
+                    want = "rec"
+                elif origin.startswith("mutcall:") and "decorator_body_mutated_argument_of_tag_template" in r.stats and not sampled.get("mut"):
+                    want = "mut"
+                if want:
+                    sampled[want] = sampled.get(want, 0) + 1
+                    samples.append({"config": cfg, "layout": lay, "ops": ops, "impl": [o for _, o in r.eff], "states": sorted(r.stats)})
             dm, ds, gh = compare(r, answers)
             if dm is not None or ds is not None or gh is not None:
                 found += 1
@@ -333,7 +385,13 @@ def run(chk: Check) -> int:
         "distinct_nontrivial": len(distinct),
         "rule": "histories of 2..30 commands (plus the probes after each delete_tags) over the layouts plain (4 keys, 3 plain tags), "
                 "templ (6 keys, templated tags user:{user}/page:{page} + plain), decor (6 keys, tags attached by @cache(tags=...) and register_tag), "
-                "big:N (N in 100..230 members under one tag, batching) and the malformed stream unreg (unregistered tag, not judged), generated from "
+                "mut (7 keys r:{cols} / q:{opts} of decorated functions with a list / dict argument in key and tag templates; in about half of "
+                "the calls the body mutates the argument in place: append, sort, reverse, pop, insert, setdefault, pop key, clear, update), "
+                "big:N (N in 100..230 members under one tag, batching) and the malformed stream unreg (unregistered tag, not judged); delete_match "
+                "draws from glob patterns, wildcard-free patterns naming one key exactly and patterns matching nothing; two directed streams: "
+                "recreate (tagged write, one explicit removal path - delete / delete_many / delete_match exact / delete_match glob / delete_tags of "
+                "another carried tag -, re-creation without the tag, delete_tags, with noise) and mutcall (decorated calls with mutating bodies and "
+                "controls, delete_tags of a tag rendered from the call-time arguments, probes and a further call); generated from "
                 "VERIF_SEED, round-robin over configurations " + ",".join(CFGS) + "; a case is non-trivial iff it contains a delete_tags and reached "
                 "at least one interesting state listed in interesting_states_cases (other than a decorator hit); distinct = distinct (config, layout, op list)",
         "samples": samples,
@@ -341,7 +399,10 @@ def run(chk: Check) -> int:
         "exhaustive": True,
         "exhaustive_subspace": f"all {len(exh)} histories of 1..{exh_len} commands over a {nalpha}-command alphabet (2 keys, 1 tag, tagged set with TTL none/1s/100s, "
                                "tagged incr, untagged overwrite, delete, 2s advance, delete_tags), each followed by delete_tags and a probe of both keys; "
-                               "the generated histories of the other layouts are sampled, not exhaustive",
+                               f"and all {len(exh2)} histories of 1..{exh2_len} commands over a {nalpha2}-command alphabet of removal paths (tagged / untagged set of 2 keys, "
+                               "delete, delete_many, delete_match with the exact name of either key, with a glob matching both, with a pattern matching nothing, "
+                               "2s advance, delete_tags of a second tag), same tail; the generated histories of the other layouts are sampled, not exhaustive",
+        "cases_by_stream": by_stream,
         "delete_tags_commands_judged": deltags_checked,
         "op_histogram": hist,
         "cases_by_layout": by_layout,
@@ -352,8 +413,10 @@ def run(chk: Check) -> int:
         "registry_layer_sweep": {"well_separated_templates_checked": reg_checked, "mismatches": len(reg_mism),
                                  "values_with_separator_tried(not judged)": reg_amb, "of_which_registry_tag_differs": reg_ambdiff},
         "trusted_base": TRUSTED,
-        "partial": "not sampled: more than 30 commands or 6 keys per history (except the big:N layouts), non-dyadic TTLs, tag values containing ':' "
-                   "(the registry's greedy regex may then derive a different tag than the writer used), expire()/set_many on tagged keys (outside the "
+        "partial": "not sampled: more than 30 commands or 7 keys per history (except the big:N layouts), non-dyadic TTLs, tag values containing ':' in a "
+                   "key template with more than one field (the registry's greedy regex may then derive a different tag than the writer used; the list / dict "
+                   "arguments of the layout mut are the only field of their key template), decorated functions mutating attributes of object arguments or "
+                   "called concurrently, the early/soft/hit/iterator decorators' tags=, expire()/set_many on tagged keys (outside the "
                    "property's alphabet), Redis/diskcache set_add (not installed here; their set TTL still follows the latest add - known finding recorded by the coordinator)",
     })
     chk.assumptions.extend(TRUSTED)
